@@ -202,8 +202,14 @@ Proof. unfold wstep. simpl. destruct (has_agent w i); reflexivity. Qed.
 Lemma bm_collect_world p m : b_w (bm_collect p m) = b_w m.
 Proof. reflexivity. Qed.
 
-Lemma bm_mutate_steps m : w_steps (b_w (bm_mutate m)) = w_steps (b_w m).
-Proof. reflexivity. Qed.
+Lemma mutate_agents_steps p r w : w_steps (mutate_agents p r w) = w_steps w.
+Proof.
+  unfold mutate_agents. destruct (p_mc p =? 1); [reflexivity|]. destruct (p_mc p =? 2); [apply wstep_create_steps|].
+  destruct (p_mc p =? 3); [destruct (w_agents w); [reflexivity|apply wstep_remove_steps]|].
+  destruct ((p_mc p =? 4) && negb r); reflexivity.
+Qed.
+Lemma bm_mutate_steps p m : w_steps (b_w (bm_mutate p m)) = w_steps (b_w m).
+Proof. unfold bm_mutate. cbn [b_w]. rewrite mutate_agents_steps. reflexivity. Qed.
 
 Lemma bm_collects_steps p c : forall m, w_steps (b_w (bm_collects p c m)) = w_steps (b_w m).
 Proof.
@@ -214,7 +220,7 @@ Qed.
 Lemma bm_collects_running p c : forall m, b_running (bm_collects p c m) = b_running m.
 Proof.
   induction c as [|j IH]; intros m; simpl; [reflexivity|].
-  destruct j; [apply IH|]. change (b_running (bm_mutate (bm_collects p (S j) m))) with (b_running (bm_collects p (S j) m)).
+  destruct j; [apply IH|]. change (b_running (bm_mutate p (bm_collects p (S j) m))) with (b_running (bm_collects p (S j) m)).
   apply IH.
 Qed.
 
@@ -374,10 +380,18 @@ Proof.
   - rewrite map_app. simpl. apply sortedZ_snoc; assumption.
 Qed.
 
-Lemma bm_mutate_inv p m : bm_inv p m -> bm_inv p (bm_mutate m).
+Lemma mutate_agents_attrs p r w : w_attrs (mutate_agents p r w) = w_attrs w.
 Proof.
-  intros [Hr Hk Hb Hs]. constructor; simpl; try assumption.
-  destruct Hk as [H1 H2]. split; simpl; [apply amem_aset; exact H1|apply amem_aset_same].
+  unfold mutate_agents. destruct (p_mc p =? 1); [reflexivity|]. destruct (p_mc p =? 2); [apply wstep_create_attrs|].
+  destruct (p_mc p =? 3); [destruct (w_agents w); [reflexivity|apply wstep_remove_attrs]|].
+  destruct ((p_mc p =? 4) && negb r); reflexivity.
+Qed.
+Lemma bm_mutate_inv p m : bm_inv p m -> bm_inv p (bm_mutate p m).
+Proof.
+  intros [Hr Hk Hb Hs]. constructor; try assumption.
+  - unfold bm_mutate. cbn [b_w]. eapply has_kt_attrs; [apply mutate_agents_attrs|].
+    destruct Hk as [H1 H2]. split; simpl; [apply amem_aset; exact H1|apply amem_aset_same].
+  - intros x Hx. rewrite bm_mutate_steps. apply Hb. exact Hx.
 Qed.
 
 Lemma bm_collects_inv p c : forall m, bm_inv p m -> bm_inv p (bm_collects p c m).
